@@ -85,6 +85,11 @@ def static_interpreters(ctx, rep, clause):
             if isinstance(n, ast.Call) and norm_stmt(n.func) == 're.finditer' and len(n.args) == 2 and \
                     norm_stmt(n.args[1]).endswith('.sequence'):
                 mult = True
+        if not gets and not skip:
+            # neither a read of a special target nor a skip of them was recognised: the rule map is handled in a form
+            # this rule does not read (a verdict needs at least one of the two facts)
+            raise AnalysisError(f'{fq}: the handling of the special targets of the static-rule map was not recognised '
+                                f'(form not read)')
         ob(rep, 'SIB-static', fq, 'special targets are N-Term and C-Term', gets == {'N-Term', 'C-Term'},
            "static_map.get('N-Term') / .get('C-Term')", f'special targets read: {sorted(gets)}: a terminal rule is '
            f'interpreted by one calculator and ignored (or treated as a residue) by another', f.loc(), clause)
@@ -136,9 +141,14 @@ def _additions(program, f):
 
     def loop_add(fn_node):
         res = []
+        from ..canon import Canon as _Canon
+        cz = _Canon(fn_node)
         for n in ast.walk(fn_node):
-            if isinstance(n, ast.For) and isinstance(n.iter, ast.Call) and isinstance(n.iter.func, ast.Attribute) and \
-                    n.iter.func.attr == 'items':
+            it = n.iter if isinstance(n, ast.For) else None
+            if isinstance(it, ast.Name) and cz.single_value(it.id) is not None:
+                it = cz.single_value(it.id)        # terms = SRC.items() ... for k, v in terms:
+            if isinstance(n, ast.For) and isinstance(it, ast.Call) and isinstance(it.func, ast.Attribute) and \
+                    it.func.attr == 'items':
                 for st in ast.walk(n):
                     tgt = None
                     if isinstance(st, ast.Assign) and isinstance(st.targets[0], ast.Subscript):
@@ -146,7 +156,7 @@ def _additions(program, f):
                     elif isinstance(st, ast.AugAssign) and isinstance(st.target, ast.Subscript):
                         tgt = st.target
                     if tgt is not None and isinstance(tgt.value, ast.Name):
-                        res.append((tgt.value.id, n.iter.func.value, st))
+                        res.append((tgt.value.id, it.func.value, st))
         return res
     out += loop_add(f.node)
     for n in ast.walk(f.node):
